@@ -316,9 +316,38 @@ func propC20(t *rapid.T) {
 		}
 	}
 
+	// handOver gives the queued announcements to the running follower (what the node's listener thread
+	// does); with park the follower is held at its next database call meanwhile, so that it finds them
+	// queued together
+	inflight := false
+	handOver := func(park bool) {
+		var release chan struct{}
+		if park && len(w.env.Queue) >= 2 {
+			release = make(chan struct{})
+			pile.Store(release)
+			w.flag("pile-up-of-announcements")
+		}
+		for _, b := range w.env.Queue {
+			sent := make(chan struct{})
+			go func() { H.OnBlockConnected(b); close(sent) }()
+			select {
+			case <-sent:
+				inflight = true
+			case <-time.After(5 * time.Second):
+				t.Fatalf("HARNESS-ERROR: OnBlockConnected blocked for 5 s (queue full?)")
+			}
+			l.logf("announced h=%d", b.Header.Height)
+		}
+		if release != nil {
+			time.Sleep(200 * time.Microsecond)
+			pile.Store((chan struct{})(nil))
+			close(release)
+		}
+		w.env.Queue = nil
+	}
+
 	// the burst
 	burst := rapid.SliceOfN(rapid.SampledFrom([]string{"blocks", "blocks", "import", "remove", "reorg", "importStorm", "pileUp"}), 1, 4).Draw(t, "burst")
-	inflight := false
 	for bi, op := range burst {
 		stopping, parkFlush := false, false
 		select {
@@ -439,30 +468,15 @@ func propC20(t *rapid.T) {
 		if hold && !parkFlush && bi < len(burst)-1 {
 			continue // keep them for later
 		}
-		// hand queued announcements to the running follower (what the node's listener thread does)
-		var release chan struct{}
-		if (hold || parkFlush) && len(w.env.Queue) >= 2 {
-			release = make(chan struct{})
-			pile.Store(release)
-			w.flag("pile-up-of-announcements")
-		}
-		for _, b := range w.env.Queue {
-			sent := make(chan struct{})
-			go func() { H.OnBlockConnected(b); close(sent) }()
-			select {
-			case <-sent:
-				inflight = true
-			case <-time.After(5 * time.Second):
-				t.Fatalf("HARNESS-ERROR: OnBlockConnected blocked for 5 s (queue full?)")
-			}
-			l.logf("announced h=%d", b.Header.Height)
-		}
-		if release != nil {
-			time.Sleep(200 * time.Microsecond)
-			pile.Store((chan struct{})(nil))
-			close(release)
-		}
+		handOver(hold || parkFlush)
+	}
+	// announcements still held back (the last step of the burst made no request) reach the follower now;
+	// if the shutdown has begun they reach nobody - Start() will catch up with the node instead
+	select {
+	case <-l.stopIssued:
 		w.env.Queue = nil
+	default:
+		handOver(hold)
 	}
 	delay := time.Duration(0)
 	if mode == "delay" {
@@ -515,7 +529,24 @@ func propC20(t *rapid.T) {
 		if time.Now().After(deadline) {
 			ws, hs := guard.WorkerState(w.env.HandlerPtr()), guard.HandlerState(w.env.HandlerPtr())
 			if ws == "busy" || hs == "busy" {
-				t.Fatalf("HARNESS-ERROR: not converged after 90 s but goroutines are still working (%s / %s): %s", ws, hs, why)
+				// "busy" = not at one of the known parking places. Working, or parked somewhere else for good
+				// (e.g. on a mutex the other goroutine holds while it waits for this one)? Three samples over
+				// six seconds: both goroutines in a blocking primitive with unchanged stacks have not moved.
+				hp := w.env.HandlerPtr()
+				wst, wb, wstack := guard.BlockedAt(hp, "masswallet.worker")
+				hst, hb, hstack := guard.BlockedAt(hp, "masswallet.handle")
+				parked := wb && hb
+				for k := 0; k < 2 && parked; k++ {
+					time.Sleep(3 * time.Second)
+					_, wb2, wstack2 := guard.BlockedAt(hp, "masswallet.worker")
+					_, hb2, hstack2 := guard.BlockedAt(hp, "masswallet.handle")
+					parked = wb2 && hb2 && wstack2 == wstack && hstack2 == hstack
+				}
+				if ok2, _ := l.converged(); parked && !ok2 {
+					t.Fatalf("the follower and the background worker block each other: %s (worker %s [%s], follower %s [%s], both parked with unchanged stacks)\n  burst: %s\n  history:\n  %s\n%s",
+						why, ws, wst, hs, hst, strings.Join(l.log, "; "), w.journalTail(12), wantedStacks(hp))
+				}
+				t.Fatalf("HARNESS-ERROR: not converged after 90 s but goroutines are still working (%s [%s] / %s [%s]): %s", ws, wst, hs, hst, why)
 			}
 			t.Fatalf("the running wallet does not finish accepted work: %s (worker %s, follower %s)\n  burst: %s\n  history:\n  %s\n%s",
 				why, ws, hs, strings.Join(l.log, "; "), w.journalTail(12), wantedStacks(w.env.HandlerPtr()))
